@@ -137,7 +137,7 @@ PLAN = {
                   "hypercorn.middleware.http_to_https:HTTPToHTTPSRedirectMiddleware._send_websocket_redirect"],
         "trusted_base": ["abstract callables for the wrapped application / send / receive (pyvc:Callable)", "DispatcherMiddleware.mounts modelled as an insertion ordered sequence of prefixes of any length (pyvc:Mounts)"],
         "assumptions": ["urllib.parse.urlunsplit, str.split, strip and lower are uninterpreted functions", "raw_path and query_string are ASCII (ASGI percent-encoding)",
-                        "the lifespan fan-out of DispatcherMiddleware (startup/shutdown complete only when every mount completed) is NOT under contract"],
+                        "the lifespan fan-out of DispatcherMiddleware (startup/shutdown complete only when every mount completed) is not under contract: it is decided by the bounded stand-in standins/dispatcher_lifespan.py only"],
         "explanation": "proxy fix: trusted value is counted from the right end, zero hops / too few values leave the scope untouched, the caller's scope is never written; dispatcher: first matching mount in dict order with the prefix stripped and never empty, else 404 (loop invariant over the mount sequence); redirect: 307 to the same host/path/query, secure requests passed through with identical arguments",
         "level_text": "Postconditions and loop invariants proved for all header lists, hop counts, mount tables of any size and request paths.",
         "level_note": "Trusted: pyvc encoder; string helper functions uninterpreted; lifespan fan-out not covered; 'modern' mode falling back to X-Forwarded-* when no Forwarded header is usable is an observation, not claimed either way.",
@@ -259,3 +259,19 @@ PLAN["C12"]["explanation"] += "; on HTTP/2 a body that arrives after the end of 
 PLAN["C05"]["units"] = PLAN["C05"]["units"] + [HP + "_send_data", SB + "set_complete", SB + "close", SB + "__init__"]
 PLAN["C05"]["explanation"] += "; HTTP/2: a finished stream layer leaves the h2 stream ended, reset or with its end requested (C05.h2.reset, finding F5), END_STREAM is only sent where the end was requested (C05.h2.no-false-end) and a buffer sealed by close() never stays registered (published invariant of StreamBuffer)"
 PLAN["C01"]["units"] = PLAN["C01"]["units"] + [HP + "handle"]
+# C20 "fans lifespan out so that startup/shutdown complete only when every mount has completed":
+# outside the VC generator (dict comprehensions over the mount table, a task and a queue per mount),
+# decided by a bounded native enumeration, labelled as such
+PLAN["C20"]["standins"] = PLAN["C20"].get("standins", []) + [{"file": "standins/dispatcher_lifespan.py", "name": "lifespan fan-out of DispatcherMiddleware (_handle_lifespan + send, both classes)",
+                                                               "label": "BOUNDED stand-in, not counted as proved"}]
+# C06 "announces close on the response and closes after it": the transport is closed when the
+# protocol says Closed (both servers)
+PLAN["C06"]["units"] = PLAN["C06"]["units"] + [ATS + "protocol_send", TTS + "protocol_send", ATS + "_close", TTS + "_close"]
+PLAN["C06"]["trusted_base"] = PLAN["C06"]["trusted_base"] + LIB_IO
+# C15 "idle keep-alive connections are closed": a connection that becomes idle after the trigger
+# still gets its idle timer (which fires at once when shutdown has begun)
+PLAN["C15"]["units"] = PLAN["C15"]["units"] + [ATS + "protocol_send", TTS + "protocol_send"]
+PLAN["C13"]["units"] = PLAN["C13"]["units"] + ["hypercorn.protocol.h11:H11WSConnection.__init__"]
+# C08 "its transport is paused": the asyncio server waits for the transport after every write
+PLAN["C08"]["units"] = PLAN["C08"]["units"] + [ATS + "protocol_send", TTS + "protocol_send"]
+PLAN["C08"]["trusted_base"] = PLAN["C08"]["trusted_base"] + LIB_IO
